@@ -11,6 +11,8 @@ import Gotree.Lemmas.C01GoCodec
 import Gotree.Lemmas.C01Lit
 import Gotree.Lemmas.C01GoRead
 import Gotree.Lemmas.C01Witness
+import Gotree.Lemmas.C01Table
+import Gotree.Lemmas.C01Sep
 
 namespace Gotree.C01
 open Gotree Gotree.Newick
@@ -211,6 +213,62 @@ theorem parseWhileMore_writes (C : FloatCodec) (t : T) (ts : List T) (h : ∀ u 
     rw [ih t2 (fun u hu => h u (List.mem_cons_of_mem _ hu))]
     simp
 
+/-- Several trees in one text, each followed by any run of blanks (spaces, tabs, line ends — as when a line of a
+    multi-tree file holds several trees, or blanks follow the last `;`): the `More()` / `Parse()` loop of
+    ReadMultiTrees delivers exactly these trees, in order, and stops without an error. -/
+theorem parseWhileMore_writes_sep (C : FloatCodec) (sep : T → List Char) (hsep : ∀ u, (sep u).all isWhitespace = true)
+    (t : T) (ts : List T) (h : ∀ u ∈ t :: ts, WF01 C.isFloat C.dom u = true) :
+    Newick.parseWhileMore C.toCodec ((t :: ts).flatMap (fun u => Newick.write C.toCodec u ++ sep u)) =
+      (t :: ts).map (fun u => Newick.Outcome.ok u.normIds) := by
+  induction ts generalizing t with
+  | nil =>
+    have hr := wf01_wf01r _ _ t (h t (List.mem_cons_self ..))
+    have hP := parseR_write C t (sep t) hr
+    simp only [List.flatMap_cons, List.flatMap_nil, List.map_cons, List.map_nil, List.append_nil]
+    rw [parseWhileMore_ok _ _ _ _ hP]
+    have hk := skipWs_ws C.toCodec (sep t) [] (hsep t) (by intro c r hc; cases hc)
+    rw [List.append_nil] at hk
+    simp [Newick.more, scanIW, hk, scan]
+  | cons t2 ts ih =>
+    have hr := wf01_wf01r _ _ t (h t (List.mem_cons_self ..))
+    have ht2 := h t2 (List.mem_cons_of_mem _ (List.mem_cons_self ..))
+    obtain ⟨r2, hw2⟩ := write_head C.toCodec t2 (wf01_kids_ne _ _ t2 ht2)
+    have hrest : (t2 :: ts).flatMap (fun u => Newick.write C.toCodec u ++ sep u) =
+        '(' :: (r2 ++ sep t2 ++ ts.flatMap (fun u => Newick.write C.toCodec u ++ sep u)) := by
+      simp [List.flatMap_cons, hw2]
+    have hflat : (t :: t2 :: ts).flatMap (fun u => Newick.write C.toCodec u ++ sep u) =
+        Newick.write C.toCodec t ++ (sep t ++ (t2 :: ts).flatMap (fun u => Newick.write C.toCodec u ++ sep u)) := by
+      simp [List.flatMap_cons]
+    have hP := parseR_write C t (sep t ++ (t2 :: ts).flatMap (fun u => Newick.write C.toCodec u ++ sep u)) hr
+    rw [hflat, parseWhileMore_ok _ _ _ _ hP]
+    have hnl : NoLeadWs ((t2 :: ts).flatMap (fun u => Newick.write C.toCodec u ++ sep u)) := by
+      rw [hrest]; intro c r hc; cases hc; decide
+    have hskip := skipWs_ws C.toCodec (sep t) _ (hsep t) hnl
+    have hmore : Newick.more C.toCodec (sep t ++ (t2 :: ts).flatMap (fun u => Newick.write C.toCodec u ++ sep u)) = true := by
+      simp only [Newick.more, scanIW, hskip]
+      rw [hrest, scan_openpar]
+      simp
+    rw [hmore, hskip]
+    simp only [if_true, List.map_cons]
+    rw [ih t2 (fun u hu => h u (List.mem_cons_of_mem _ hu))]
+    simp
+
+/-- the hypotheses are satisfiable: two copies of `exTree`, each followed by a blank and a line end -/
+example : Newick.parseWhileMore ratCodec.toCodec ([exTree, exTree].flatMap (fun u => Newick.write ratCodec.toCodec u ++ " \n".toList)) =
+    [exTree, exTree].map (fun u => Newick.Outcome.ok u.normIds) :=
+  parseWhileMore_writes_sep ratCodec (fun _ => " \n".toList) (by intro u; decide) exTree [exTree] (by
+    intro u hu
+    have : u = exTree := by simpa using hu
+    subst this; decide +kernel)
+
+/-- The error a failed `ParseFloat` of an `x/y` label leaves in parseIter's named result (model: `stale`) is what
+    `Parse` returns when nothing overwrites it before the `;` — `(a(b))x/y;` is refused, `(a(b))xy;` is read —
+    and a later Pop clears it: `((a,b)x/y,c);` is read.  (Witnesses by kernel evaluation; the code's rule, kept.) -/
+theorem stale_err_witness :
+    (match Newick.parseStr goCodec "(a(b))x/y;" with | .err _ => true | _ => false) = true ∧
+    (match Newick.parseStr goCodec "(a(b))xy;" with | .ok _ => true | _ => false) = true ∧
+    (match Newick.parseStr goCodec "((a,b)x/y,c);" with | .ok _ => true | _ => false) = true := by decide +kernel
+
 /-- ★ Reading back what the writer wrote gives the same tree: same shape, child order, names, lengths,
     supports, p-values, node comments and branch comments; only the branch ids are renumbered in creation
     order and the parent positions are 0 (`T.normIds`).  Character level, any size, any degree. -/
@@ -365,6 +423,35 @@ theorem needs_nonnumeric_root_name_go :
     roundTripModel goCodec (.node ⟨"7.0", []⟩ 0 [innerAB ⟨NIL, NIL, NIL, [], 0⟩ ⟨"", []⟩]) = false ∧
     WF01 goCodec.isFloat isF64 (.node ⟨"7.0", []⟩ 0 [leafE NIL "a", leafE NIL "b"]) = false ∧
     roundTripModel goCodec (.node ⟨"7.0x", []⟩ 0 [leafE NIL "a", leafE NIL "b"]) = true := by decide +kernel
+
+
+/-! ### the source table (regenerated from the working tree on every run) against the model
+
+   `Gotree.Gen.C01` is written by harness/c01/extract.go (go/parser) from io/newick/newick_token.go, newick_lexer.go,
+   newick_parser.go, tree/edge.go and tree/node.go.  Each statement below INTERPRETS the table as the Go conditions
+   it was read from and compares the answer with the model function itself on a finite family of probes
+   (Lemmas/C01Table.lean); when the source changes one of these facts, the decision fails (and the case stream still
+   looks for a failing input through the oracle). -/
+
+/-- the token constants of newick_token.go are the model's `Tok`, in order -/
+theorem tokenTableCheck : Table.tokensOK = true := by decide +kernel
+
+/-- `isWhitespace`, `isIdent`, the `switch ch` of `Scanner.Scan` and the eof sentinel: the model's `isWhitespace`,
+    `isIdent`, `scan` give the same answer for every probed code point (ASCII, Latin-1, the Unicode blanks) in both modes -/
+theorem lexerTableCheck : Table.lexerOK = true := by decide +kernel
+
+/-- parseIter `case OPENBRACK`: for every prevTok (and -1) and every nil-ness of node / edge, the if-chain of the
+    source sends the comment where `Newick.iter` sends it (branch, node, or error) -/
+theorem commentTableCheck : Table.commentOK = true := by decide +kernel
+
+/-- parseIter `case IDENT, NUMERIC`: label / new tip / error by prevTok as in `Newick.iter`; `strings.Split(lit, "/")`
+    with `len(vals) == 2` as `splitSlash`; every ParseFloat is 64 bit -/
+theorem identTableCheck : Table.identOK = true := by decide +kernel
+
+/-- tree/edge.go and Node.Newick: sentinels = `NIL`; the three presence tests agree with `writeDecor` on the probes
+    (-2, -1, -1/2, 0, 1/2, 1); support only next to an empty name; FormatFloat(·, 'f', -1, 64) three times; the
+    parenthesis conditions agree with `writeNode` -/
+theorem writerTableCheck : Table.writerOK = true := by decide +kernel
 
 /-! ### the hypotheses of the theorems for the executable codec are satisfiable -/
 
